@@ -21,3 +21,16 @@ __CPROVER_assigns(*l)
 /* 8 converse of the end cases    */ __CPROVER_ensures((*l == 0 ==> *t < x[0]) && (*l == *n ==> *t >= x[*n - 1]))
 /* 9 frame                        */ __CPROVER_ensures(*n == __CPROVER_old(*n) && (*t == __CPROVER_old(*t)) && __CPROVER_return_value == 0)
 ;
+
+/* the same contract as an executable stub (plain harness of the bounded SimTK_splder_ unit: callee by contract):
+   requires asserted, *l havocked, ensures 1-5 and 8 assumed (comparison form) */
+#define SEARCH_BY_CONTRACT \
+int search_(int *n, const SimTK_Real *x, SimTK_Real *t, int *l) { \
+  __CPROVER_assert(1 <= *n && *n <= SPL_NMAX && NOTNAN(*t) && NOTNAN(x[0]) && NOTNAN(x[*n - 1]) && x[0] <= x[*n - 1], "search_ called within its contract's precondition"); \
+  *l = nondet_int(); \
+  __CPROVER_assume(0 <= *l && *l <= *n); \
+  __CPROVER_assume(!(*t < x[0]) || *l == 0); \
+  __CPROVER_assume(!(*t >= x[*n - 1]) || *l == *n); \
+  __CPROVER_assume(!(1 <= *l && *l < *n) || (!(*t < x[*l - 1]) && !(*t >= x[*l]))); \
+  __CPROVER_assume((*l != 0 || *t < x[0]) && (*l != *n || *t >= x[*n - 1])); \
+  return 0; }
